@@ -38,5 +38,31 @@ pub fn map_collect_vec<I: Iterator, B, F: FnMut(I::Item) -> B>(it: I, f: F) -> (
         forall|k: int| 0 <= k < it.remaining().len() ==> call_ensures(f, (it.remaining()[k],), #[trigger] r@[k]),
 { it.map(f).collect() }
 
+
+// `RECV.map(CLOSURE).min()`: `vals` are the values the closure actually returned, in order
+#[verifier::external_body]
+pub fn map_min<I: Iterator, F: FnMut(I::Item) -> u16>(it: I, f: F) -> (r: Option<u16>)
+    requires
+        it.obeys_prophetic_iter_laws(),
+        forall|k: int| 0 <= k < it.remaining().len() ==> call_requires(f, (#[trigger] it.remaining()[k],)),
+    ensures
+        exists|vals: Seq<u16>| #![auto] vals.len() == it.remaining().len()
+            && (forall|k: int| 0 <= k < vals.len() ==> call_ensures(f, (it.remaining()[k],), #[trigger] vals[k]))
+            && (vals.len() == 0 ==> r is None)
+            && (vals.len() > 0 ==> r is Some && vals.contains(r->Some_0) && forall|k: int| 0 <= k < vals.len() ==> r->Some_0 <= #[trigger] vals[k]),
+{ it.map(f).min() }
+
+// `RECV.map(CLOSURE).cloned().collect()` into a BTreeSet (closure returns a reference)
+#[verifier::external_body]
+pub fn map_cloned_collect_set<'a, I: Iterator, T: 'a + Clone + Ord, F: FnMut(I::Item) -> &'a T>(it: I, f: F) -> (r: BTreeSet<T>)
+    requires
+        it.obeys_prophetic_iter_laws(),
+        forall|k: int| 0 <= k < it.remaining().len() ==> call_requires(f, (#[trigger] it.remaining()[k],)),
+    ensures
+        exists|vals: Seq<T>| #![auto] vals.len() == it.remaining().len()
+            && (forall|k: int| 0 <= k < vals.len() ==> call_ensures(f, (it.remaining()[k],), &#[trigger] vals[k]))
+            && r@ == vals.to_set(),
+{ it.map(f).cloned().collect() }
+
 } // verus!
 }
